@@ -291,6 +291,52 @@ pub fn gen(tier: &str, seed: u64, out: &mut Out) {
         case["ops"] = Value::from(ops);
         push(out, case);
     }
+    // (e) products with structured operands (identity, unit triangular, elementary, permutation, diagonal, zero) on either side:
+    //     a fast path for "special" factors must still be the product
+    let special = |rng: &mut StdRng, n: usize, kind: usize| -> Value {
+        let mut d = vec![0i64; n * n];
+        let perm: Vec<usize> = { let mut p: Vec<usize> = (0..n).collect(); for i in (1..n).rev() { let j = rng.gen_range(0..=i); p.swap(i, j); } p };
+        for i in 0..n { for j in 0..n { d[i * n + j] = match kind {
+            0 => (i == j) as i64,                                                         // identity
+            1 => if i == j { 1 } else if i > j { rng.gen_range(-3..=3) } else { 0 },        // unit lower triangular
+            2 => if i == j { 1 } else if i < j { rng.gen_range(-3..=3) } else { 0 },        // unit upper triangular
+            3 => if i == j { 1 } else if (i, j) == (n - 1, 0) || (i, j) == (0, n - 1) && n > 2 { 2 } else { 0 },  // elementary-like
+            4 => (perm[i] == j) as i64,                                                   // permutation
+            5 => if i == j { rng.gen_range(-3..=3) } else { 0 },                            // diagonal
+            6 => if i == j { 1 } else if (i + j) % 2 == 1 && i < j { rng.gen_range(1..=3) } else { 0 }, // ones on the diagonal, one zero in every symmetric pair
+            _ => 0 } } }
+        json!({"r": n, "c": n, "d": d})
+    };
+    for n in 1..=8usize { for kind in 0..8usize { for side in 0..2 {
+        let ty = TYS[(n + kind + side) % 4]; let cx = ty == "cx";
+        let other = rng.gen_range(if quick { 1..=4usize } else { 0..=8usize });
+        let sp = special(&mut rng, n, kind);
+        let (init, b) = if side == 0 { (rand_mat_json(&mut rng, other, n, -5, 5), sp) } else { (sp, rand_mat_json(&mut rng, n, other, -5, 5)) };
+        let mut case = json!({"ty": ty, "init": init});
+        let mut op = json!({"op": "matmul", "form": if (n + kind) % 2 == 0 { "ref" } else { "own" }, "b": b});
+        if cx { case["initi"] = json!({"r": case["init"]["r"], "c": case["init"]["c"], "d": vec![0i64; case["init"]["d"].as_array().unwrap().len()]});
+                op["bi"] = json!({"r": op["b"]["r"], "c": op["b"]["c"], "d": vec![0i64; op["b"]["d"].as_array().unwrap().len()]}); }
+        let mut ops = vec![op];
+        if side == 1 { let mut mv = json!({"op": "matvec", "form": "ref", "v": rand_vec_json(&mut rng, n, -5, 5)}); if cx { mv["vi"] = rand_vec_json(&mut rng, n, -5, 5); } ops.push(mv); ops.push(json!({"op": "matmul_self"})); }
+        case["ops"] = Value::from(ops);
+        push(out, case);
+    } } }
+    // (f) all-zero (non-empty) matrices reached in several ways, then every norm: 0, never NaN
+    for r in 1..=8usize { for c in 1..=8usize {
+        if quick && (r + c) % 3 != 0 && r != c { continue; }
+        let zero_first = (r + c) % 2 == 0;
+        let init = if zero_first { json!({"r": r, "c": c, "d": vec![0i64; r * c]}) } else { rand_mat_json(&mut rng, r, c, -9, 9) };
+        let mut ops: Vec<Value> = vec![];
+        if !zero_first { ops.push([json!({"op": "fill", "x": 0}), json!({"op": "mul_assign", "s": 0})][(r + c) % 2 % 2].clone()); ops.push(json!({"op": "sub_self"})); }
+        for o in ["norm_1", "norm_inf", "norm_max"] { ops.push(json!({"op": o})); }
+        for p in [1, 2, 3, 6] { ops.push(json!({"op": "norm_units", "p": p, "frob": 0})); }
+        ops.push(json!({"op": "norm_units", "p": 2, "frob": 1}));
+        // a single non-zero entry, then the norms again
+        ops.push(json!({"op": "set", "i": r - 1, "j": c - 1, "x": -7}));
+        for p in [1, 2, 5] { ops.push(json!({"op": "norm_units", "p": p, "frob": 0})); }
+        ops.push(json!({"op": "norm_units", "p": 2, "frob": 1})); ops.push(json!({"op": "norm_max"}));
+        push(out, json!({"ty": "f64", "init": init, "ops": ops}));
+    } }
     // (d) exact scalar division on multiples
     for _ in 0..(if quick { 20 } else { 200 }) {
         let ty = TYS[rng.gen_range(0..4)]; let s = [2i64, -2, 3, -3, 5, 7][rng.gen_range(0..6)];
